@@ -27,9 +27,14 @@ RULE = ("catalogue (fills around the capacity of 18 configured sizes from -5 to 
         "scripts where Flush / gc / Close at arbitrary points precede long runs of distinct keys around and beyond the capacity, "
         "+ seeded expiry-around-now lookups (1-6 keys, near and far expiries, repeated lookups), + concurrent histories of 2-4 "
         "goroutines (12-36 calls, 2-3 keys or a shard-overfilling key set) ordered by a global atomic counter, + Len sampled under "
-        "concurrent writers, with and without a concurrent flusher/sweeper and an overfill after the last Flush; "
+        "concurrent writers, with and without a concurrent flusher/sweeper and an overfill after the last Flush, and with every shard "
+        "full while 4-12 goroutines store keys of ONE shard from a pool slightly larger than its limit (overwrites of present keys "
+        "racing with insertions that evict them), Len read after the stores and by a sampler; + pkg/concurrent_lru.ShardedLRU "
+        "over pkg/lru: hand-written and seeded sequential scripts of Add/Get/Del/Clean/Len/Flush (1-4 shards, 1-8 entries per shard, "
+        "repeated keys with changing values, the key touched last re-stored) with the onEvict pairs observed, replayed exactly on "
+        "the recency-list model, and concurrent Add/Get/Flush/Len/Clean histories judged by the same history predicate; "
         "a case is non-trivial when the size is below 1024 or not a multiple of 64, a Store evicted a key, a fill script contains "
-        "Flush/gc/Close, time passes an expiry, or two calls of different goroutines on the same key overlap in time; "
+        "Flush/gc/Close, time passes an expiry, an LRU script overwrites a key or evicts, or two calls of different goroutines on the same key overlap in time; "
         "distinct = distinct Gallina literal")
 ASSUMPTIONS = [
     "each shard method is one atomic step: justified by the lock table regenerated from the source "
@@ -46,7 +51,9 @@ TRUSTED_BASE = [
     "hand-written model coq/Model/CacheStore.v tied to pkg/concurrent_map/map.go and pkg/cache/cache.go by differential "
     "execution (Judge.C11: exact replay of sequential scripts with the observed eviction choices; the proved history "
     "predicate and capacity bound on concurrent histories) and by Gen/Constants.v (cache_min_size, map_shard_size)",
-    "tools/gofacts/gen_locks.go: syntactic extraction of lock calls and map accesses per method into Gen/LockFacts.v",
+    "tools/gofacts/gen_locks.go: syntactic extraction into Gen/LockFacts.v of (table) lock calls and map accesses per method of "
+    "the lock-owning structs and (callers) the number of lock-taking calls on one path of every function above them "
+    "(Map.Set, ShardedLRU.Add, ...)",
     "pkg/cache/zz_verif_export_c11.go (build tag verif): VerifGC(now) = c.gc(now)",
 ]
 LEVEL_TEXT = ("Theorems in coq/Properties/C11.v, for every operation list / every interleaving (label list) of "
@@ -56,10 +63,14 @@ LEVEL_TEXT = ("Theorems in coq/Properties/C11.v, for every operation list / ever
               "under exactly that key by a Store that began before the lookup ended, was unexpired when the lookup began, and "
               "was not overwritten or flushed by a call that completed before the lookup began after that Store had returned; "
               "the lock table regenerated from the source puts every map write under Lock and every read under RLock/Lock, "
-              "which excludes overlapping conflicting accesses under every schedule. The model is run inside Coq on every "
+              "which excludes overlapping conflicting accesses under every schedule, and every Map-level operation takes a shard lock at "
+              "most once (no check-then-act over two critical sections); the ShardedLRU/LRU model never exceeds maxSize per shard and "
+              "its Get returns the latest Add's value or nothing. The model is run inside Coq on every "
               "case the Go driver observed on the real pkg/cache.Cache.")
 LEVEL_NOTE = ("Trusted: Coq kernel + vm_compute; hand-written model tied to the code by the differential run, Gen/Constants.v and "
               "Gen/LockFacts.v (gofacts is syntactic, best effort); atomicity of a locked shard method and Go's memory model are "
               "assumed, not derived; concurrent histories are checked against the proved predicate, not linearised; the Go race "
               "detector is not run by this check; plugin-level defaults (Args.init) and concurrent_lru are outside the store "
-              "modelled here (concurrent_lru only appears in the lock table). No axioms.")
+              "modelled here; pkg/lru and concurrent_lru have a sequential model with theorems (bounded, latest value) and an exact "
+              "differential replay, their concurrent histories are judged by the cache's history predicate without an LRU transition "
+              "system behind it. No axioms.")
